@@ -118,8 +118,13 @@ func VerifH_addRule_collisions() {
 		err := root.addRule(vfHTTPRule("GET", "/vf.S/M0"), d0, "/vf.S/M0")
 		vfCheck(err == nil, "a method's additional verb on its own path must be accepted")
 		vfCover("own-path-verb")
-	case 2: // another method claims a specific verb on a path that has a kind-* binding: unspecified outcome, no panic
-		_ = root.addRule(vfHTTPRule("GET", "/vf.S/M0"), d1, "/vf.S/M1")
+	case 2: // another method claims a specific verb on a path that another method holds with kind *:
+		// the kind-* binding covers that verb, so this is a conflict (the reverse order - a kind-*
+		// binding added where another method holds one verb - is left unspecified)
+		err := root.addRule(vfHTTPRule("GET", "/vf.S/M0"), d1, "/vf.S/M1")
+		vfCheck(err != nil, "a method was bound to a verb on a path that another method already holds with kind *")
+		m, _, merr := root.match("/vf.S/M0", "GET")
+		vfCheck(merr == nil && m.name == "/vf.S/M0", "a rejected binding took over a verb of an existing kind-* route")
 		vfCover("star-vs-verb")
 	case 3: // same verb, same path, other method
 		vfCheck(root.addRule(vfHTTPRule("GET", "/aa/{f}"), d0, "/vf.S/M0") == nil, "setup")
